@@ -72,8 +72,8 @@ def _u1(ctx):
                     ctx.ok(R, fi, comp, "set built from the stream")
                 else:
                     ctx.bad(R, fi, comp, "list/generator comprehension over an unordered result stream: element order is completion order")
-            elif isinstance(p, ast.Call) and call_name(p) in ("list", "tuple"):
-                ctx.bad(R, fi, p, f"{call_name(p)}() over an unordered result stream: element order is completion order")
+            elif isinstance(p, ast.Call) and call_name(p) in ("list", "tuple", "zip", "enumerate", "deque", "array"):
+                ctx.bad(R, fi, p, f"{call_name(p)}() over an unordered result stream: element positions follow completion order, not job order")
             elif isinstance(p, ast.Return) and fi.module.rel == PAR:
                 ctx.ok(R, fi, p, "parallel() passthrough", nontrivial=False)
             else:
